@@ -81,7 +81,7 @@ def stmt_failure(zero, a, b, idx_nm, r, fy, fx):
     # a Match that was inspected before another lattice is put on it (derive / optimise): its calculated positions are those of ITS lattice
     ms = grm.Match(grm.CorrelationResult(centers=coords + 0.25), selector=None, zero=zero, a=a, b=b, indices=flat)
     _ = (ms.error, ms.calculated_refineds.copy())
-    z2, a2, b2 = zero + np.array([1.5, -0.5]), a * 1.01, b + np.array([0.25, 0.0])
+    z2, a2, b2 = zero + np.array([1.5, -0.5]), a * 1.01, b * 0.98            # still non-parallel
     for nm, md in (('derive(zero=, a=, b=)', ms.derive(zero=z2, a=a2, b=b2)),):
         want2 = z2 + flat[:, 0:1] * a2 + flat[:, 1:2] * b2
         if np.abs(np.asarray(md.calculated_refineds) - want2).max() > 1e-9 * sc:
